@@ -205,7 +205,10 @@ def build_inputs(case, d):
         val = np.nan if nod == "NaN" else nod
         left[:, hole] = val
     write_tif(os.path.join(d, "left.tif"), left, "float32", crs, tr, bands)
-    write_tif(os.path.join(d, "right.tif"), right, "float32", crs, tr, bands)
+    # the right image of a georeferenced pair is georeferenced on its own (one pixel to the east of the left one): every
+    # right product must carry the RIGHT image's transform
+    tr_right = Affine(tr.a, tr.b, tr.c + tr.a, tr.d, tr.e, tr.f) if tr is not None else None
+    write_tif(os.path.join(d, "right.tif"), right, "float32", crs, tr_right, bands)
     inp = {"left": {"img": os.path.join(d, "left.tif")}, "right": {"img": os.path.join(d, "right.tif")}}
     if nod is not None:
         inp["left"]["nodata"] = nod
